@@ -184,6 +184,10 @@ func Exec(t *testing.T, sc Scenario) *evid.Failure {
 			for pth, pend := range byPath {
 				sort.Slice(pend, func(x, y int) bool { return st[pend[x]].arriveSeq < st[pend[y]].arriveSeq })
 				_, q := l.VerifEndpoint(reqs[pend[0]])
+				if q < 0 {
+					fail = evid.Failf("limit/queue-negative", sc, "after event %d (%s): the queue of path %d reports %d waiters: %s", step, what, pth, q, desc())
+					return false
+				}
 				if q > len(pend) {
 					fail = evid.Failf("limit/queue-ghost", sc, "after event %d (%s): the queue of path %d holds %d waiters but only %d requests are pending on it: %s", step, what, pth, q, len(pend), desc())
 					return false
@@ -462,7 +466,50 @@ func exhaustive(t *testing.T, n int) evid.Engine {
 		}}
 }
 
+// genLong: one busy period of a path that lasts for 70-160 requests - arrivals in index order, the
+// requests at the head of the line finishing (or being cancelled) while new ones keep arriving, so
+// that the line behind the running request(s) is never empty and many more requests pass through it
+// than it ever holds at once.
+func genLong(t *rapid.T) Scenario {
+	sc := Scenario{Total: int64(rapid.SampledFrom([]int{0, 0, 2, 3}).Draw(t, "total")), PerPath: int64(rapid.IntRange(1, 2).Draw(t, "perPath"))}
+	n := rapid.IntRange(70, 160).Draw(t, "n")
+	twoPaths := rapid.IntRange(0, 3).Draw(t, "twopaths") == 0
+	for i := 0; i < n; i++ {
+		p := 0
+		if twoPaths {
+			p = rapid.IntRange(0, 1).Draw(t, "path")
+		}
+		sc.Paths = append(sc.Paths, p)
+	}
+	sc.Obs = uint(rapid.Uint64().Draw(t, "obs"))
+	depth := rapid.IntRange(2, 40).Draw(t, "depth") // how long the line is kept
+	var active []int
+	cancelled := map[int]bool{}
+	next := 0
+	for next < n || len(active) > 0 {
+		if next < n && (len(active) < depth || rapid.IntRange(0, 2).Draw(t, "more") == 0) {
+			sc.Events = append(sc.Events, Event{"arrive", next})
+			active = append(active, next)
+			next++
+			continue
+		}
+		k := rapid.IntRange(0, min(3, len(active)-1)).Draw(t, "which")
+		i := active[k]
+		if !cancelled[i] && rapid.IntRange(0, 9).Draw(t, "cancel") == 0 {
+			cancelled[i] = true
+			sc.Events = append(sc.Events, Event{"cancel", i})
+			continue
+		}
+		sc.Events = append(sc.Events, Event{"finish", i})
+		active = append(active[:k], active[k+1:]...)
+	}
+	return sc
+}
+
 func gen(t *rapid.T) Scenario {
+	if rapid.IntRange(0, 19).Draw(t, "long") == 0 {
+		return genLong(t)
+	}
 	sc := Scenario{Total: int64(rapid.IntRange(0, 3).Draw(t, "total")), PerPath: int64(rapid.IntRange(0, 2).Draw(t, "perPath"))}
 	n := rapid.IntRange(4, 7).Draw(t, "n")
 	for i := 0; i < n; i++ {
@@ -507,12 +554,16 @@ func TestCheck(t *testing.T) {
 				b, _ := json.Marshal(sc)
 				key = string(b)
 			}
-			r.Case("random", key, func() any { return sc })
+			if len(sc.Paths) >= 70 {
+				r.Case("random", key, func() any { return sc }, "random/one-busy-period-of-70-to-160-requests")
+			} else {
+				r.Case("random", key, func() any { return sc })
+			}
 		}
 		return f
 	})
 	r.Main(evid.Meta{
-		Rule:        "wire: a whole client connection (datagram and stream) with total limit 1-3 and per-path limit 1-2 against a scripted peer that answers when the scenario says so; Get, Observe and Observation.Cancel calls on three paths; at every quiescent point the requests the peer holds unanswered (GETs, observe registrations and de-registrations alike) number at most the total limit and, per path, the per-path limit; when the peer has answered everything every call has returned. Others: the limiter built with (total, per-path) limits from {1,2,unlimited}, the wrapped do / doObserve blocking on a per-request gate and keeping in-flight gauges (requests go through Do or DoObserve: odd ones in the exhaustive engine, a generated subset in the random one); events {arrive(i,path), cancel(i), finish(i)} executed one at a time in a synctest bubble with quiescence after each; exhaustive: every event order for 3 requests (4 in the thorough tier) x every cancel subset x path assignments x 7 limit pairs; random: 4-7 requests over 3 paths. Oracle at every quiescent point: in-flight <= total limit and <= per-path limit per path; a waiter cancelled while waiting returns its context error and never runs; no waiter exists while both limits have room for it (no lost slot); the per-path queue (verif accessor) holds exactly the latest arrivals among the pending requests of its path and nobody who arrived after a queued request has run (FIFO admission; with no total limit also: entry into do() follows arrival order across steps); finally every call has returned, a probe on every path is admitted at once, and no limiter goroutine is left. stress: 3-32 real goroutines (no virtual clock) released together on 3 paths, cancelling after 0-400 us, 40 repetitions per pattern; the gauges inside do() give the maximum ever in flight, afterwards the queue table (verif accessor) is empty and a probe on each path runs at once. Non-trivial = a cancel of a request queued behind another one (finite limits); distinct by scenario",
+		Rule:        "wire: a whole client connection (datagram and stream) with total limit 1-3 and per-path limit 1-2 against a scripted peer that answers when the scenario says so; Get, Observe and Observation.Cancel calls on three paths; at every quiescent point the requests the peer holds unanswered (GETs, observe registrations and de-registrations alike) number at most the total limit and, per path, the per-path limit; when the peer has answered everything every call has returned. Others: the limiter built with (total, per-path) limits from {1,2,unlimited}, the wrapped do / doObserve blocking on a per-request gate and keeping in-flight gauges (requests go through Do or DoObserve: odd ones in the exhaustive engine, a generated subset in the random one); events {arrive(i,path), cancel(i), finish(i)} executed one at a time in a synctest bubble with quiescence after each; exhaustive: every event order for 3 requests (4 in the thorough tier) x every cancel subset x path assignments x 7 limit pairs; random: 4-7 requests over 3 paths, and in a twentieth of the cases one busy period of 70-160 requests on one or two paths (a line of 2-40 waiters kept up while its head finishes or is cancelled). Oracle at every quiescent point: in-flight <= total limit and <= per-path limit per path; a waiter cancelled while waiting returns its context error and never runs; no waiter exists while both limits have room for it (no lost slot); the per-path queue (verif accessor) holds exactly the latest arrivals among the pending requests of its path and nobody who arrived after a queued request has run (FIFO admission; with no total limit also: entry into do() follows arrival order across steps); finally every call has returned, a probe on every path is admitted at once, and no limiter goroutine is left. stress: 3-32 real goroutines (no virtual clock) released together on 3 paths, cancelling after 0-400 us, 40 repetitions per pattern; the gauges inside do() give the maximum ever in flight, afterwards the queue table (verif accessor) is empty and a probe on each path runs at once. Non-trivial = a cancel of a request queued behind another one (finite limits); distinct by scenario",
 		Assumptions: []string{"events are applied one at a time, so at a quiescent point a request is either waiting or running: the 'either outcome' tolerance for simultaneous admission and cancellation is not needed"},
 		Floor:       500,
 	}, exhaustive(t, 3), random, stressEngine(r), wireEngine(t, r))
